@@ -99,34 +99,50 @@ def _work(task):
     return n, fails, distinct
 
 
+PAREN_CONTEXTS = [
+    ("void f(void){ ", " ; }"),
+    ("void f(void){ L : ", " ; }"),
+    ("void f(void){ switch ( x ) { case 1 : ", " ; } }"),
+    ("void f(void){ switch ( x ) { default : ", " ; } }"),
+    ("void f(void){ if ( c ) ", " ; else ; }"),
+    ("void f(void){ if ( c ) ; else ", " ; }"),
+    ("void f(void){ while ( c ) ", " ; }"),
+    ("void f(void){ do ", " ; while ( c ) ; }"),
+    ("int f(void){ return ", " ; }"),
+    ("void f(void){ for ( ", " ; ; ) ; }"),
+    ("void f(void){ if ( c ) L : ", " ; }"),
+]
+
+
 def _paren_work(task):
     from models import expr_model as em
 
-    trees = task
+    trees, nctx = task
     n = 0
     fails = []
     for t in trees:
-        base = "typedef int T ; void f(void){ " + em.render(t) + " ; }"
-        b = _observe(base)
-        if b[0][0] == "rejected":
-            continue  # rejected expressions are C01/C02's business
-        for path in em.positions(t):
-            sub = em.get_at(t, path)
-            if sub[0] == "comma":
-                continue  # a parenthesised comma operand is visible by design
-            vt = "typedef int T ; void f(void){ " + em.render(em.wrap_at(t, path)) + " ; }"
-            v = _observe(vt)
-            n += 1
-            if v[0] != b[0]:
-                if v[0][0] == "rejected":
-                    sig = "parens:rejected:" + em.class_term(sub)
-                    det = v[0][1]
-                else:
-                    sig = "parens:" + core.diff_sig(b[0], v[0])
-                    det = core.first_diff(b[0], v[0])
-                fails.append((sig, {"text": vt, "base": base}, det))
-            elif v[1] != b[1]:
-                fails.append(("parens:gendiff", {"text": vt, "base": base}, ""))
+        for ci, (pre, post) in enumerate(PAREN_CONTEXTS[:nctx]):
+            base = "typedef int T ; " + pre + em.render(t) + post
+            b = _observe(base)
+            if b[0][0] == "rejected":
+                continue  # rejected expressions are C01/C02's business
+            for path in em.positions(t):
+                sub = em.get_at(t, path)
+                if sub[0] == "comma":
+                    continue  # a parenthesised comma operand is visible by design
+                vt = "typedef int T ; " + pre + em.render(em.wrap_at(t, path)) + post
+                v = _observe(vt)
+                n += 1
+                if v[0] != b[0]:
+                    if v[0][0] == "rejected":
+                        sig = "parens:rejected:" + em.class_term(sub)
+                        det = v[0][1]
+                    else:
+                        sig = "parens:" + core.diff_sig(b[0], v[0])
+                        det = core.first_diff(b[0], v[0])
+                    fails.append((sig, {"text": vt, "base": base}, det))
+                elif v[1] != b[1]:
+                    fails.append(("parens:gendiff", {"text": vt, "base": base}, ""))
     return n, fails
 
 
@@ -161,7 +177,9 @@ def run(tier):
         from models import expr_model as em
 
         trees = list(em.trees(2)) if quick else list(em.trees(2)) + list(em.trees(3, ops=em.OPS_REP, min_ops=3))
-        for cnt, fl in core.pmap(_paren_work, core.chunked(trees, 300), chunksize=1):
+        small = list(em.trees(1)) + list(em.trees(2, ops=em.OPS_REP, min_ops=2))
+        ptasks = [(ch, 1) for ch in core.chunked(trees, 300)] + [(ch, len(PAREN_CONTEXTS)) for ch in core.chunked(small, 60)]
+        for cnt, fl in core.pmap(_paren_work, ptasks, chunksize=1):
             pn += cnt
             R.fail_many(fl)
         R.set("paren_trees", len(trees))
